@@ -469,6 +469,42 @@ fn op_name(op: Option<&Op>) -> &'static str {
     }
 }
 
+/// Workers share the host's UDP port space: a flow socket is bound to the wildcard address for an
+/// instant before it is connected, and a datagram another worker sends to a stale port of its own
+/// can land in it (seen once in ~10^6 executions). Each worker therefore gets a network namespace
+/// of its own (loopback only) when the process may create one; otherwise the shared one is used.
+fn isolate_network() -> bool {
+    #[repr(C)]
+    struct IfReq {
+        name: [libc::c_char; 16],
+        flags: libc::c_short,
+        pad: [u8; 22],
+    }
+    unsafe {
+        if libc::unshare(libc::CLONE_NEWNET) != 0 {
+            return false;
+        }
+        let fd = libc::socket(libc::AF_INET, libc::SOCK_DGRAM, 0);
+        if fd < 0 {
+            return false;
+        }
+        let mut r: IfReq = std::mem::zeroed();
+        r.name[0] = b'l' as libc::c_char;
+        r.name[1] = b'o' as libc::c_char;
+        let mut ok = libc::ioctl(fd, libc::SIOCGIFFLAGS, &mut r as *mut IfReq) == 0;
+        if ok {
+            r.flags |= (libc::IFF_UP | libc::IFF_RUNNING) as libc::c_short;
+            ok = libc::ioctl(fd, libc::SIOCSIFFLAGS, &r as *const IfReq) == 0;
+        }
+        libc::close(fd);
+        ok
+    }
+}
+
+static ISOLATED_WORKERS: AtomicU32 = AtomicU32::new(0);
+static SHARED_WORKERS: AtomicU32 = AtomicU32::new(0);
+static UNCONFIRMED: Mutex<Vec<String>> = Mutex::new(Vec::new());
+
 struct M;
 
 impl HistoryModel for M {
@@ -481,7 +517,20 @@ impl HistoryModel for M {
     }
     fn run(&self, hist: &[Op]) -> Result<HistOutcome, Violation> {
         let _g = crate::engine::watch::enter("C07:wedged".into(), json!({"history": hist}).to_string());
-        rt::run_paused(run_history(hist))
+        match rt::run_paused(run_history(hist)) {
+            Ok(o) => Ok(o),
+            Err(v) if v.signature.contains("machinery") => Err(v),
+            // a failure counts when the same history fails the same way again (real sockets on a
+            // shared host are the one thing the harness does not own); what does not repeat is
+            // listed in the evidence
+            Err(v) => match rt::run_paused(run_history(hist)) {
+                Err(v2) if v2.signature == v.signature => Err(v),
+                other => {
+                    UNCONFIRMED.lock().unwrap().push(format!("{} ({}); second run: {}", v.signature, v.what, match &other { Ok(_) => "held".to_string(), Err(v2) => v2.signature.clone() }));
+                    other
+                }
+            },
+        }
     }
 }
 
@@ -489,7 +538,13 @@ pub fn run(tier: Tier) -> i32 {
     crate::engine::watch::start("C07", tier.name(), Duration::from_secs(60), crate::engine::watch::OnExpiry::Machinery);
     let mut rep = Report::new("C07", tier, "model_checking");
     let depth = tier.pick(6usize, 11usize);
-    let (st, viol, samples) = bfs(&M, depth, Duration::from_secs(tier.pick(45, 1500)), rt::workers(), &|| {});
+    let (st, viol, samples) = bfs(&M, depth, Duration::from_secs(tier.pick(45, 1500)), rt::workers(), &|| {
+        if isolate_network() {
+            ISOLATED_WORKERS.fetch_add(1, Ordering::Relaxed);
+        } else {
+            SHARED_WORKERS.fetch_add(1, Ordering::Relaxed);
+        }
+    });
     // report the shortest history per signature
     let mut viol = viol;
     viol.sort_by_key(|(h, _)| h.len());
@@ -503,6 +558,13 @@ pub fn run(tier: Tier) -> i32 {
     rep.cov("per_depth_new_states", json!(st.per_depth_states));
     rep.cov("capped", st.capped);
     rep.cov("exhaustive", !st.capped);
+    rep.cov("workers_in_own_network_namespace", ISOLATED_WORKERS.load(Ordering::Relaxed));
+    rep.cov("workers_on_shared_loopback", SHARED_WORKERS.load(Ordering::Relaxed));
+    let unconfirmed = std::mem::take(&mut *UNCONFIRMED.lock().unwrap());
+    for u in &unconfirmed {
+        eprintln!("UNCONFIRMED (did not repeat on re-execution): {u}");
+    }
+    rep.cov("failures_not_confirmed_by_reexecution", json!(unconfirmed));
     for s in samples.into_iter().take(4) {
         rep.sample(json!({"history": s}));
     }
